@@ -210,7 +210,7 @@ func runC12(c *core.Ctx) {
 				if fa, ok := x.Addr.(*ssa.FieldAddr); ok {
 					fnm := core.FieldName(fa)
 					// the assembler's own bookkeeping of state / cursor fields is not a commit
-					if strings.HasSuffix(fnm, ".state") || strings.HasSuffix(fnm, ".ma") || strings.HasSuffix(fnm, ".cm") || strings.HasSuffix(fnm, ".f") || strings.HasSuffix(fnm, ".m") && !strings.HasPrefix(fnm, "plainMap.") {
+					if isStateField(fa) || isAssemblerPtrField(p, fa) || strings.HasSuffix(fnm, ".cm") || strings.HasSuffix(fnm, ".f") || strings.HasSuffix(fnm, ".m") && !strings.HasPrefix(fnm, "plainMap.") {
 						return false
 					}
 					if strings.HasSuffix(fnm, ".err") || strings.HasSuffix(fnm, ".Key") {
@@ -282,7 +282,7 @@ func runC12(c *core.Ctx) {
 			isHook := func(in ssa.Instruction) bool {
 				switch x := in.(type) {
 				case *ssa.UnOp:
-					if fa, ok := x.X.(*ssa.FieldAddr); ok && x.Op == token.MUL && core.FieldName(fa) == "_assembler.finish" {
+					if fa, ok := x.X.(*ssa.FieldAddr); ok && x.Op == token.MUL && isFinishHookField(fa) {
 						return true
 					}
 				case ssa.CallInstruction:
